@@ -80,6 +80,29 @@ def overlay_files(work, unit):
     return ["-modfile=" + mp, "-overlay=" + op]
 
 
+def instrument_files(work, unit):
+    """overlay for harness units that want the pkg/http2 serve loop to yield (see overlay/instr/yield.go):
+    server.go is copied from REPO's working tree with one call inserted; if the loop cannot be found
+    (a change reshaped it) the copy is left as it is and the check runs without the yield."""
+    src = open(os.path.join(REPO, "pkg/http2/server.go")).read()
+    i = src.find("func (sc *serverConn) serve(")
+    m = re.compile(r"\n\tfor \{\n(?:\t\t[a-zA-Z]+\+\+\n)?(\t\tselect \{\n\t\tcase [a-z]+ := <-sc\.)").search(src, i) if i >= 0 else None
+    inserted = False
+    if m:
+        src = src[:m.start(1)] + "\t\tverifServeYield()\n" + src[m.start(1):]
+        inserted = True
+    d = os.path.join(work, "instr")
+    os.makedirs(d, exist_ok=True)
+    open(os.path.join(d, "server.go"), "w").write(src)
+    rep = {os.path.join(REPO, "pkg/http2/server.go"): os.path.join(d, "server.go"),
+           os.path.join(REPO, "pkg/http2/zz_verif_yield.go"): os.path.join(VERIF, "overlay", "instr", "yield.go")}
+    op = os.path.join(work, "overlay.%s.json" % unit["name"])
+    json.dump({"Replace": rep}, open(op, "w"))
+    if not inserted:
+        log("note: serve loop not found in pkg/http2/server.go; %s runs without the yield" % unit["name"])
+    return ["-overlay=" + op]
+
+
 def build_unit(work, unit):
     out = os.path.join(work, unit["name"] + ".test")
     cmd = [GO, "test", "-c", "-vet=off", "-o", out]
@@ -91,7 +114,10 @@ def build_unit(work, unit):
         cmd += overlay_files(work, unit) + ["./" + unit["pkg"]]
         cwd = REPO
     else:
-        cmd += harness_modfile(work) + ["./" + unit["pkg"]]
+        cmd += harness_modfile(work)
+        if unit.get("instrument"):
+            cmd += instrument_files(work, unit)
+        cmd += ["./" + unit["pkg"]]
         cwd = HARNESS
     t0 = time.time()
     r = subprocess.run(cmd, cwd=cwd, env=goenv(), capture_output=True, text=True)
